@@ -343,6 +343,22 @@ def check_metadata(ctx, r):
                 cands = [f for f in w["wraps"] + w["impl"] if f.name == st.value.id]
                 if cands and not all(c in w["wraps"] for c in cands):
                     ctx.bad("C07.4", jt, st, f"jaxtyped returns `{st.value.id}`, one definition of which lacks functools.wraps(fn)")
+    # nothing re-assigns the metadata that functools.wraps copied: `wrapper.__signature__ = <resolved signature>`
+    # makes inspect.signature() report resolved / rewritten annotations instead of the ones in the source
+    META = {"__signature__", "__name__", "__qualname__", "__doc__", "__module__", "__annotations__", "__defaults__", "__kwdefaults__", "__wrapped__", "__text_signature__"}
+    wnames = {x.name for x in w["wraps"]}
+    for fn_ in [jt] + list(w["wraps"]) + list(w["impl"]):
+        for st in walk_scope(fn_.node):
+            tgts = st.targets if isinstance(st, ast.Assign) else [st.target] if isinstance(st, (ast.AugAssign, ast.AnnAssign)) else []
+            for t_ in tgts:
+                if isinstance(t_, ast.Attribute) and t_.attr in META and isinstance(t_.value, ast.Name) and t_.value.id in wnames:
+                    ctx.bad("C07.4", fn_, st, f"`{short(st, 70)}` overwrites metadata of the wrapper that functools.wraps had copied from the decorated function: "
+                            f"`{t_.attr}` of the decorated function is no longer that of the original", construct=f"wrapper metadata re-assigned: {t_.attr}")
+            if isinstance(st, ast.Expr) and isinstance(st.value, ast.Call) and norm(st.value.func) == "setattr" and st.value.args \
+                    and isinstance(st.value.args[0], ast.Name) and st.value.args[0].id in wnames and len(st.value.args) > 1 \
+                    and isinstance(st.value.args[1], ast.Constant) and st.value.args[1].value in META:
+                ctx.bad("C07.4", fn_, st, f"`{short(st, 70)}` overwrites metadata of the wrapper that functools.wraps had copied from the decorated function",
+                        construct=f"wrapper metadata re-assigned: {st.value.args[1].value}")
     # descriptor branches: `if isinstance(fn, K): return K(jaxtyped(fn.__func__, ...))`, also when the
     # kinds are driven from a table (`for kind in (classmethod, staticmethod): if isinstance(fn, kind): ...`)
     found = {}
